@@ -202,8 +202,14 @@ def g_refit(draw):
     c = {"X": a["X"], "XB": XB, "k": a["k"], "scale": a["scale"], "kind": a["kind"]}
     c["init"] = {"method": gen.choice(draw, ["random", "k-means||"]), "init": None, "seed": gen.integer(draw, 0, 999)}
     c["thr"] = gen.choice(draw, [None, 1e-2, 1e-1])
-    c["cap"] = gen.choice(draw, [1, 2, 3, 5])
+    c["cap"] = gen.choice(draw, [1, 2, 3, 5, 8])
     c["dask_first"] = gen.boolean(draw)
+    # a cap sweep on one estimator object: the first training used another cap on the SAME data
+    c["same_data"] = gen.choice(draw, [False, True, True])
+    c["first_cap"] = gen.choice(draw, [1, 1, 2, 3])
+    c["copied"] = gen.choice(draw, ["no", "no", "deepcopy", "pickle"])
+    if c["same_data"]:
+        c["XB"] = c["X"]
     return c
 
 
@@ -211,13 +217,21 @@ def g_refit(draw):
 def c_refit(ctx, case):
     """A machine that was already trained and is trained again on other data gives what a fresh machine gives
     (same centroids, same criterion, hence the same number of iterations)."""
-    m = km_machine(case, case["cap"], case["thr"])
+    import copy
+    import pickle
+
+    m = km_machine(case, case.get("first_cap", case["cap"]), case["thr"])
     first = sut.dask_rows(case["X"], [case["X"].shape[0]]) if case["dask_first"] else case["X"]
     m.fit(first)
     m.predict(case["X"])
+    if case.get("copied") == "deepcopy":
+        m = copy.deepcopy(m)
+    elif case.get("copied") == "pickle":
+        m = pickle.loads(pickle.dumps(m))
+    m.max_iter = case["cap"]
     m.fit(case["XB"])
     fresh = km_machine(case, case["cap"], case["thr"]).fit(case["XB"])
-    ctx.note(case["k"] >= 2, "init:" + case["init"]["method"])
+    ctx.note(case["k"] >= 2, "init:" + case["init"]["method"], "same-data" if case.get("same_data") else "other-data")
     if not np.isfinite(fresh.centroids_).all():
         ctx.discard("empty cluster")
     ctx.close(m.centroids_, fresh.centroids_, "centroids after training again vs fresh machine", rtol=0, atol=0)
